@@ -30,6 +30,7 @@ type Obj struct {
 	Val  Value
 	Typ  types.Type // type of Val
 	Name string
+	Written bool
 }
 
 type Sel struct {
